@@ -182,6 +182,32 @@ func genC03(c *Ctx) {
 			})
 		}
 	}
+	// long containers (counts around 64, 128, 256, 1024, 4096): whole, and cut at the block boundaries, near the end and
+	// in the middle — a decoder that reads in blocks must fail on every one of these cuts and on none of the whole ones
+	nlong := 0
+	for _, tag := range []byte{7, 11, 12, 9, 8} {
+		for _, n := range nbtSizes(c, c.N(1, 8), false) {
+			if n > 1100 && !c.Thorough() {
+				n = nbtSmallSizes[r.Intn(len(nbtSmallSizes))]
+			}
+			nd := g.bigNode(tag, []byte{1, 2, 3, 4, 5, 6, 8}[r.Intn(7)], n)
+			nlong++
+			format := []string{"file", "net"}[nlong%2]
+			doc, _ := nd.doc(format, nil)
+			s.emit(doc, format, []string{"any", "raw"})
+			dynbtDec(c, format, "br", doc)
+			if tag != 8 {
+				c02Dec(c, map[byte]string{7: "sl<i8>", 11: "sl<u32>", 12: "sl<i64>", 9: "any"}[tag], format, false, "rd", doc)
+			}
+			unit := map[byte]int{7: 1, 11: 4, 12: 8, 9: 4, 8: 1}[tag]
+			for _, cut := range []int{len(doc) - 1, len(doc) - unit, len(doc) / 2, len(doc) - 64*unit, len(doc) - 63*unit, 8 + 64*unit, 8 + 256} {
+				if cut > 0 && cut < len(doc) {
+					s.emit(doc[:cut], format, []string{[]string{"any", "raw"}[cut%2]})
+					dynbtDec(c, format, "br", doc[:cut])
+				}
+			}
+		}
+	}
 	// random bytes <= 64 long, biased to start with a tag id
 	for i := 0; i < c.N(6000, 400000); i++ {
 		d := g.bytesOf(r.Intn(65))
